@@ -468,7 +468,10 @@ fn rem_group(m: &mut M, r: &mut Rng) {
             m.call("arith", "mul", "vv", Some(0), &[A::R(1), A::F(k)]);
             if scen == 1 {
                 let t = m.tf(0);
-                let d = t.lo().abs().max(t.hi().abs() * 2f64.powi(-105)) * if r.coin() { 1.0 } else { -1.0 };
+                // distance of the quotient from the integer: one binade at a time (round-robin) from 2^-112 to 2^-50
+                // relative, i.e. on both sides of the 2^-98 proviso of the property and of any "snap" tolerance
+                let d0 = if r.coin() { t.lo().abs().max(t.hi().abs() * 2f64.powi(-105)) } else { t.hi().abs() * pow2(-50 - (r.tick() % 63) as i32) };
+                let d = d0 * if r.coin() { 1.0 } else { -1.0 };
                 m.call("arith", "add", "vv", Some(0), &[A::R(0), A::F(d)]);
             }
         }
